@@ -32,6 +32,7 @@ type Req struct {
 	AltEntry   []string `json:"alt_entry,omitempty"`
 	Recv       string   `json:"recv,omitempty"`
 	NoPrepare  bool     `json:"no_prepare,omitempty"`
+	SameOpts   bool     `json:"same_opts,omitempty"`
 	Order      []int    `json:"order,omitempty"`
 }
 
